@@ -1,22 +1,22 @@
 #!/venv/bin/python
-"""tools/seed_import.py <worktree> <prop> <m1|m2> <caught_by csv> <initially_missed 0|1> <what was strengthened>"""
+"""tools/seed_import.py <worktree> <prop> <m1|m2> <caught_by csv> <initially_missed 0|1> <what was strengthened> [suffix]"""
 import sys, os, json, shutil, subprocess
 wt, prop, m, caught, missed, strengthened = sys.argv[1:7]
-d = f"/verif/seeded/{prop}-{m}"
+suffix = sys.argv[7] if len(sys.argv) > 7 else ""
+d = f"/verif/seeded/{prop}-{suffix}{m}"
 os.makedirs(d, exist_ok=True)
 shutil.copy(f"{wt}/{m}.patch", f"{d}/patch.diff")
 shutil.copy(f"{wt}/demo_{m}.py", f"{d}/demo.py")
 notes = open(f"{wt}/notes.md").read()
-base = subprocess.check_output(["git", "-C", "/repo", "log", "--format=%h", "-1"], text=True).strip()
 meta = {
     "property": prop,
-    "source": "independent sub-agent given only the property text and a scratch worktree",
+    "source": "independent sub-agent given only the property text and a scratch worktree" + ("; round 3 brief: two cooperating sites (m1) / multi-step history or rare regime (m2)" if suffix else ""),
     "applies_to_repo_commit": subprocess.check_output(["git", "-C", wt, "log", "--format=%h", "-1"], text=True).strip(),
     "what_it_needs_to_manifest": "see notes.md (sub-agent's own description)",
     "verified_by_me": {
         "existing_tests_with_change": "233 passed (tools/seed_verify.sh)",
         "demo_with_change_exit": 1, "demo_without_change_exit": 0,
-        "commands": [f"tools/seed_verify.sh {wt} {m}", f"tools/seed_eval.sh {wt}/{m}.patch {prop}"],
+        "commands": [f"tools/seed_verify.sh {wt} {m}", f"tools/seed_eval.sh {wt}/{m}.patch {caught.split(',')[0]}"],
     },
     "caught_by": caught.split(","),
     "initially_missed": bool(int(missed)),
